@@ -2777,6 +2777,20 @@ def _m_copysign(interp, x, y):
     return interp.native(math.copysign, [x, y], {})
 
 
+def _m_chain_from_iterable(interp, its):
+    out = []
+    for it in interp.iterate(its):
+        out.extend(interp.iterate(it))
+    return out
+
+
+def _m_chain(interp, *its):
+    out = []
+    for it in its:
+        out.extend(interp.iterate(it))
+    return out
+
+
 def _m_isnan(interp, x):
     import math
     if isinstance(x, SFloat):
@@ -2857,6 +2871,7 @@ def _m_dict_fromkeys(interp, keys, value=None):
 DEFAULT_MODELS = {
     dict.fromkeys: _m_dict_fromkeys,
     _itertools.product: _m_product, _itertools.zip_longest: _m_zip_longest,
+    _itertools.chain.from_iterable: _m_chain_from_iterable, _itertools.chain: _m_chain,
     iter: _m_iter,
     object.__setattr__: _m_object_setattr,
     _math.copysign: _m_copysign, _math.isnan: _m_isnan, _math.isinf: _m_isinf,
